@@ -23,6 +23,58 @@ TABLES = pathlib.Path(__file__).resolve().parent.parent / "tables"
 
 
 # --------------------------------------------------------------------------- R1
+def _calls(e, *names):
+    return e is not None and any(isinstance(x, ast.Call) and (
+        (isinstance(x.func, ast.Attribute) and x.func.attr in names) or (isinstance(x.func, ast.Name) and x.func.id in names)) for x in ast.walk(e))
+
+
+def _sub_const(e, key):
+    return any(isinstance(x, ast.Subscript) and isinstance(x.slice, ast.Constant) and x.slice.value == key for x in ast.walk(e)) if e is not None else False
+
+
+def _appended_ctor(node, nm, ctor):
+    """`nm[...].append(<ctor>(...))` occurs in the function"""
+    for x in ast.walk(node):
+        if isinstance(x, ast.Call) and isinstance(x.func, ast.Attribute) and x.func.attr == "append" and isinstance(x.func.value, ast.Subscript) and \
+                isinstance(x.func.value.value, ast.Name) and x.func.value.value.id == nm and x.args and isinstance(x.args[0], ast.Call) and \
+                isinstance(x.args[0].func, ast.Name) and x.args[0].func.id == ctor:
+            return True
+    return False
+
+
+def _enum_target(st, nm, pos, over):
+    return isinstance(st, ast.For) and isinstance(st.iter, ast.Call) and isinstance(st.iter.func, ast.Name) and st.iter.func.id == "enumerate" and \
+        st.iter.args and unparse(st.iter.args[0]) == over and isinstance(st.target, ast.Tuple) and len(st.target.elts) == 2 and \
+        isinstance(st.target.elts[pos], ast.Name) and st.target.elts[pos].id == nm
+
+
+# roles of the locals of BMSMap._read_notes (sa/normal.py: with_roles): the rules below name them by role
+BMS_READ_ROLES = (
+    ("Hit", lambda n, v, st: isinstance(v, ast.Call) and call_name(v) == "namedtuple" and v.args and C.const_str(v.args[0]) == "Hit"),
+    ("Hold", lambda n, v, st: isinstance(v, ast.Call) and call_name(v) == "namedtuple" and v.args and C.const_str(v.args[0]) == "Hold"),
+    ("hits", lambda n, v, st, node: isinstance(v, ast.ListComp) and _appended_ctor(node, n, "Hit")),
+    ("holds", lambda n, v, st, node: isinstance(v, ast.ListComp) and _appended_ctor(node, n, "Hold")),
+    ("measure", lambda n, v, st: isinstance(v, ast.Call) and call_name(v) == "int" and _sub_const(v, "measure")),
+    ("channel", lambda n, v, st: isinstance(v, ast.Subscript) and _sub_const(v, "channel")),
+    ("sequence", lambda n, v, st: isinstance(v, ast.Subscript) and _sub_const(v, "sequence")),
+    ("pairs", lambda n, v, st: isinstance(v, ast.ListComp) and "sequence[" in unparse(v.elt) and _calls(v.generators[0].iter, "range")),
+    ("division", lambda n, v, st: isinstance(v, ast.BinOp) and isinstance(v.op, ast.FloorDiv) and unparse(v.left) == "len(sequence)"),
+    ("i", lambda n, v, st: _enum_target(st, n, 0, "pairs")),
+    ("pair", lambda n, v, st: _enum_target(st, n, 1, "pairs")),
+    ("metronome", lambda n, v, st: v is not None and "DEFAULT_METRONOME" in unparse(v) and (_calls(v, "get") or _calls(v, "float"))),
+    ("beat", lambda n, v, st: isinstance(v, ast.BinOp) and _calls(v, "Fraction") and "division" in unparse(v)),
+    ("column", lambda n, v, st: isinstance(v, ast.Call) and call_name(v) == "int" and "[channel]" in unparse(v)),
+    ("tm", lambda n, v, st: isinstance(v, ast.Call) and call_name(v) == "from_bpm_changes_snap"),
+    ("bcs_s", lambda n, v, st: isinstance(v, ast.List) and len(v.elts) == 1 and isinstance(v.elts[0], ast.Call) and call_name(v.elts[0]) == "BpmChangeSnap"),
+)
+
+
+def _read_notes_fn(ctx):
+    from ..normal import with_roles
+    return with_roles(ctx.M.nfn(f"{BMSMAP}._read_notes"), BMS_READ_ROLES)
+
+
+
 def layout_entries(ctx, name: str) -> Tuple[List[Tuple[object, object, int]], ast.AST]:
     """Raw (key, value, line) entries of a layout literal with ** expansions, duplicates kept."""
     M = ctx.M
@@ -178,7 +230,7 @@ def _alternatives(e: ast.AST, inv) -> List[Tuple[Optional[str], bool, ast.AST]]:
 def rule_r3(ctx) -> List[R.Inst]:
     M = ctx.M
     rid = "C04.R3"
-    fn = M.nfn(f"{BMSMAP}._read_notes")
+    fn = _read_notes_fn(ctx)
     hdr = M.fn(f"{BMSMAP}._read_file_header")
     file = M.mods[fn.mod].rel
     inv = inverted_maps(fn.node)
@@ -526,7 +578,7 @@ def rule_r4(ctx) -> List[R.Inst]:
 def rule_r5(ctx) -> List[R.Inst]:
     M = ctx.M
     rid = "C04.R5"
-    fn = M.nfn(f"{BMSMAP}._read_notes")
+    fn = _read_notes_fn(ctx)
     file = M.mods[fn.mod].rel
     insts = []
     stmts = ordered_stmts(fn.node.body)
@@ -597,7 +649,7 @@ def rule_r5(ctx) -> List[R.Inst]:
 def rule_r6(ctx) -> List[R.Inst]:
     M = ctx.M
     rid = "C04.R6"
-    fn = M.nfn(f"{BMSMAP}._read_notes")
+    fn = _read_notes_fn(ctx)
     file = M.mods[fn.mod].rel
     loop = _main_loop(fn)
     has_state = any(isinstance(n, ast.Call) and call_name(n) == "pop" for n in ast.walk(loop))
@@ -622,7 +674,7 @@ def rule_r6(ctx) -> List[R.Inst]:
                        "the LN marker is paired with 'the most recent object of the lane' while iterating the lines in the "
                        "caller's order: a marker line placed before its head line, or two lines of one measure and channel, "
                        "pair the wrong objects (or raise)",
-                       construct=f"for {unparse(loop.target)} in {unparse(it)}: ... pop/append pairing")]
+                       construct="per-line loop in the caller's order: pop/append pairing of LN markers")]
     return [R.undec(rid, "ln-pairing-order", file, srt.lineno,
                     "lines are sorted before pairing; whether the key orders objects of one lane by position "
                     "(measure and slot, across several lines of one measure) is not decided")]
@@ -633,7 +685,7 @@ def rule_r7(ctx) -> List[R.Inst]:
     """position formula and line slicing"""
     M = ctx.M
     rid = "C04.R7"
-    fn = M.nfn(f"{BMSMAP}._read_notes")
+    fn = _read_notes_fn(ctx)
     rd = M.fn(f"{BMSMAP}.read")
     file = M.mods[fn.mod].rel
     loop = _main_loop(fn)
@@ -716,12 +768,27 @@ def rule_r7(ctx) -> List[R.Inst]:
     # line slicing in read(): '#mmmcc:data'
     file_r = M.mods[rd.mod].rel
     sl = {}
+    byname = {}
     for n in walk_no_nested(rd.node):
         if isinstance(n, ast.Assign) and isinstance(n.targets[0], ast.Name) and isinstance(n.value, ast.Subscript) and \
                 isinstance(n.value.slice, ast.Slice):
             lo, hi = n.value.slice.lower, n.value.slice.upper
             if isinstance(lo, ast.Constant) and isinstance(hi, ast.Constant):
-                sl[n.targets[0].id] = (lo.value, hi.value, n)
+                byname[n.targets[0].id] = (lo.value, hi.value, n)
+    # which slice becomes which field of the per-line record: dict(measure=<x>, channel=<y>, ...) — the locals' names do not matter
+    from .. import sympaths as SP
+    for n in walk_no_nested(rd.node):
+        it = SP.dict_items(n) if isinstance(n, (ast.Call, ast.Dict)) else None
+        if it and {"measure", "channel"} <= set(it):
+            for f_ in ("measure", "channel"):
+                v_ = it[f_]
+                if isinstance(v_, ast.Name) and v_.id in byname:
+                    sl[f_] = byname[v_.id]
+                elif isinstance(v_, ast.Subscript) and isinstance(v_.slice, ast.Slice) and isinstance(v_.slice.lower, ast.Constant) and \
+                        isinstance(v_.slice.upper, ast.Constant):
+                    sl[f_] = (v_.slice.lower.value, v_.slice.upper.value, n)
+    if not sl:
+        sl = byname
     want = {"measure": (1, 4), "channel": (4, 6)}
     for nm, (a, b) in want.items():
         key = f"line-slice:{nm}"
@@ -745,7 +812,7 @@ def rule_r8(ctx) -> List[R.Inst]:
     """parallel sequences: which accumulator field reaches which constructor keyword"""
     M = ctx.M
     rid = "C04.R8"
-    fn = M.nfn(f"{BMSMAP}._read_notes")
+    fn = _read_notes_fn(ctx)
     file = M.mods[fn.mod].rel
     insts = []
     # accumulators: which buffer holds hits / holds, decided by the namedtuple appended to it in the loop
